@@ -80,6 +80,8 @@ def sle_trace(rng, tid):
     w = dl.SLEWorld(rng)
     steps = []
     for n in range(rng.randint(1, 4)):
+        if n and rng.random() < 0.4:
+            w.change_solvents(rng)
         T = rng.uniform(250, 450)
         sol = rng.choice([None, None, None, 0.001, 0.05, 0.3, 0.9, 0., 1.])
         obs = w.sle(T, sol)
